@@ -93,6 +93,10 @@ def step (st : St) (ts : List String) : St × String :=
       | some (rc', r) => ({ st with rc := some rc' }, natList r)
       | none => (st, fuelOut)
     | _, _, _ => (st, "bad-op")
+  | ["mutate"] =>
+    -- caller-side edits of values the cache has handed out: every result is a fresh value (`Prov.fresh`,
+    -- Generated.C15Fresh + Props/C15 `results_fresh_fact`), so nothing of the model's state changes
+    (st, "ok")
   | ["stats"] =>
     (st, s!"size={rc.inC.size + rc.outC.size} hits={rc.inC.hits + rc.outC.hits} misses={rc.inC.misses + rc.outC.misses} cap={rc.inC.cap + rc.outC.cap}")
   | _ => (st, "bad-op")
